@@ -1,8 +1,10 @@
 """Per-property job lists for bin/check (quick / thorough), bounds, assumptions."""
 
 
-def J(harness, label="", covers=None, cfg=None, noassert=False, **params):
+def J(harness, label="", covers=None, cfg=None, noassert=False, map_order=None, **params):
     d = {"harness": harness, "params": params, "label": label or ",".join("%s=%s" % kv for kv in sorted(params.items()))}
+    if map_order:
+        d["map_order"] = map_order
     if noassert:
         d["no_assert_ok"] = True  # the property is "no panic": every library panic is a violation by itself
     if covers:
@@ -374,4 +376,28 @@ PROPS["C01"] = {
     "assumptions": ["sync/atomic operations are sequentially consistent and are the only scheduling points", "values are distinct constants (data independence of the generic ring)", "VerifSyncRingAt builds exactly the invariant states (checked inductively in C10)"],
     "level_text": "Bounded model checking of the real SyncRing under a controlled scheduler: every schedule of the atomic operations within the preemption bound, from every capacity/rotation/fill and (in-package variant) from every absolute counter value decided symbolically by the solver (the ticket comparisons pos != seq, pos+1 != seq, l > cap are where wrap-around bugs live); each schedule is checked for linearizability to a bounded FIFO, conservation, progress, the Len range, quiescent exactness, data races and deadlock.",
     "level_note": "Trusted: go/ssa, gosym scheduler/race detector, z3, the overlay constructor. Counterexamples are replayed natively through the atomic/Gosched shim in the recorded order.",
+}
+
+# ------------------------------------------------------------------------------------------- C12
+c12 = "vh/c12."
+PROPS["C12"] = {
+    "patterns": ["./c12"],
+    "level": "model_checking",
+    "concurrent": True,
+    "shim": {"files": ["mapz/safekv.go", "mapz/iter.go"], "sync": True},
+    "quick": [
+        J(c12 + "Conc", threads=2, ops=1, opset=0, cfg={"Preempt": 2, "Witnesses": 0}, map_order="insertion"),
+        J(c12 + "Conc", threads=2, ops=2, opset=1, cfg={"Preempt": 2, "Witnesses": 0, "MaxPaths": 80000000}, map_order="insertion"),
+    ],
+    "thorough": [
+        J(c12 + "Conc", threads=3, ops=1, opset=0, cfg={"Preempt": 2, "Witnesses": 0, "MaxPaths": 80000000}, map_order="insertion"),
+        J(c12 + "Conc", threads=2, ops=2, opset=0, cfg={"Preempt": 2, "Witnesses": 0, "MaxPaths": 80000000}, map_order="insertion"),
+        J(c12 + "Conc", threads=2, ops=1, opset=0, cfg={"Preempt": 3, "Witnesses": 0}, map_order="two"),
+    ],
+    "bounds": {"quick": "2 goroutines x 1 method over all 14 methods (Get/Set/SetNx/SetX/Delete/Has/Len/Keys/Values/Range/All/GetWithMap/Map/Clear) and 2 x 2 methods over SetNx/SetX/Delete/Keys/Clear, keys {1,2}, initial map empty or {1:100}; every interleaving of the lock operations with at most 2 preemptions; vector-clock race check on the map, its length and the entries field",
+               "thorough": "3 goroutines x 1 and 2 x 2 over all methods; 3 preemptions; map iteration order forward and reversed"},
+    "outside": ["more goroutines/operations", "GetWithLock (not named in the property)", "key/value types other than int"],
+    "assumptions": ["RWMutex semantics as in the Go memory model (engine model: writers exclude everyone, readers exclude writers)", "a Go map counts as one memory location for race purposes (reads race with writes), as in the race detector"],
+    "level_text": "Bounded model checking of the real SafeKV under a controlled scheduler: every schedule of lock operations within the preemption bound; data races are decided by a vector-clock happens-before check on every plain access (including reads made outside the lock), atomicity by a Wing-Gong linearizability search against a plain map with snapshot results checked at a single linearization point.",
+    "level_note": "Trusted: go/ssa, gosym scheduler/race detector. Races are confirmed natively with -race, atomicity violations by replaying the recorded lock order through the sync shim.",
 }
